@@ -100,7 +100,7 @@ def main(argv=None):
         if getattr(p, 'custom', None):
             st = p.custom()
         else:
-            st = explore.explore(p.scenarios, p.run_one, p.budgets, split=p.split, deadline_s=p.deadline_s,
+            st = explore.explore(p.scenarios, p.run_one, p.budgets, split=p.split, deadline_s=p.deadline_s or (1200 if a.tier == 'quick' else 10800),
                                  known_ids=kn, workers=p.workers, chunk=p.chunk)
         cov = {'part': p.name, 'what': p.what, 'bound': p.bound, 'scenarios': len(p.scenarios), 'executions': st.execs,
                'choice_points': st.points, 'max_depth': st.max_depth, 'distinct_outcomes': len(st.outcomes),
